@@ -33,6 +33,7 @@ func init() {
 			"every set of <=2 continuations over all token boundaries x indentation(2) x CRLF(2) x comment/blank lines(2) x placement(inline, Include, nested quoted Include in a sub directory, glob Include) x final newline(2), a 70 kB comment line in every placement (thorough: + full token layer x reduced layout layer); " +
 			"near-misses: every delimiter occurrence of the varied component and of the directive's top level (argument spaces, operator/action-list quotes, continuations, the newline after the rule) deleted and duplicated in the canonical rendering (thorough: also in a continued, fully quoted rendering) + a continuation on the last line; " +
 			"every evaluation compiles the text with the real parser and runs the probe battery; " +
+			"include family: a rule with a relative data file (@pmFromFile, @ipMatchFromFile) before / after one, two, nested and glob Includes and inside included files, a same-named decoy file in every directory: the file next to the rule's own file must be the one used; " +
 			"distinct_nontrivial = distinct configuration texts that differ from the canonical rendering of their description",
 		Assumptions: []string{
 			"the model (secmodel) covers ARGS_GET and REQUEST_HEADERS targets, @streq/@rx, and the actions id, phase, pass, log, deny, status, redirect, msg, logdata, tag, severity, setvar, t:none/lowercase, rev, ver; rule text outside this vocabulary is not enumerated",
@@ -61,6 +62,10 @@ type Scenario struct {
 }
 
 func replay(raw json.RawMessage) (bool, string) {
+	var ic includeCase
+	if err := json.Unmarshal(raw, &ic); err == nil && ic.Want != "" && ic.Main != "" {
+		return replayInclude(ic)
+	}
 	var sc Scenario
 	if err := json.Unmarshal(raw, &sc); err != nil {
 		return false, err.Error()
@@ -254,6 +259,7 @@ func run(c *runner.Ctx) {
 		}
 		checkDesc(c, axis, n, d)
 	})
+	checkIncludes(c, &idx)
 	c.Extra("axes", perAxis)
 }
 
